@@ -72,6 +72,9 @@ type Options struct {
 	// SetReadDeadline is applied, with its argument.
 	BeforeDeadline func(t time.Time)
 	Addr           string
+	// CloseErr: the client side's Close closes the connection and reports this error (a TLS connection that
+	// could not send its close_notify alert does that)
+	CloseErr error
 }
 
 // Pair is a connected pair of conns.
@@ -349,6 +352,9 @@ func (c *Conn) Close() error {
 	}
 	if f != nil {
 		err = f.Err
+	}
+	if err == nil && c.isClient && p.opts.CloseErr != nil {
+		err = p.opts.CloseErr
 	}
 	c.logOp(idx, "close", 0, err, time.Time{})
 	p.cond.Broadcast()
